@@ -573,5 +573,12 @@ func c13Models(r *h.Result, rng *h.Rng, tier string) error {
 	if err := c13HTTPTempo(r, rng.Fork(), n); err != nil {
 		return err
 	}
-	return c13ModelProfPlans(r, rng.Fork(), n)
+	if err := c13ModelProfPlans(r, rng.Fork(), n); err != nil {
+		return err
+	}
+	tails, ticks := 5, 3
+	if tier != "quick" {
+		tails, ticks = 15, 5
+	}
+	return c13ModelTail(r, rng.Fork(), tails, ticks)
 }
